@@ -169,15 +169,11 @@ Inv_PromoteIdempotent ==
 (* what the probes of props/c05.py observe for an expression of type T: the generic  *)
 (* selection over G1 (all basic arithmetic types) and G2 (one enum per compatible type), *)
 (* compatibility with the twin enums, size, and incompatible types of the same size.     *)
-G1 == <<"bool", "char", "schar", "uchar", "short", "ushort", "int", "uint", "long", "ulong", "llong", "ullong",
-        "float", "double", "ldouble">>
-G2 == <<"eu", "es", "eul", "el", "efs", "efuc">>
-Twins == <<"eu2", "es2", "eul2">>
 ObsTypes == {B(k) : k \in BasicKinds} \cup {En(e) : e \in EnumTags}
 ObsOf(t) ==
   [name |-> Name(t),
-   g1 |-> GenericSel(t, [i \in 1..Len(G1) |-> B(G1[i])]),
-   g2 |-> GenericSel(t, [i \in 1..Len(G2) |-> En(G2[i])]),
+   g1 |-> GenericSel(t, G1Types),
+   g2 |-> GenericSel(t, G2Types),
    tw |-> [i \in 1..Len(Twins) |-> Compatible(t, En(Twins[i]))],
    size |-> SizeOf(t),
    near |-> SetToSeq({k \in BasicKinds : ~Compatible(t, B(k)) /\ KindSize(k) = SizeOf(t)})]
